@@ -260,6 +260,27 @@ func (a address) assign(k bool, value int8, valueType reflect.Type) {
 	}
 }
 
+// okType returns the type of the boolean value assigned to addr in an
+// assignment of the form 'v, ok = expr'.
+func (em *emitter) okType(addr address) reflect.Type {
+	if t := addr.targetType(); t != nil && t.Kind() == reflect.Bool {
+		return t
+	}
+	return boolType
+}
+
+// assignConverted assigns the value in the register reg, with type typ, to
+// addr. If the target has an interface type and typ is not an interface type,
+// the value is first converted to the type of the target.
+func (em *emitter) assignConverted(addr address, reg int8, typ reflect.Type) {
+	if t := addr.targetType(); t != nil && t.Kind() == reflect.Interface && typ.Kind() != reflect.Interface {
+		tmp := em.fb.newRegister(reflect.Interface)
+		em.changeRegister(false, reg, tmp, typ, t)
+		reg, typ = tmp, t
+	}
+	addr.assign(false, reg, typ)
+}
+
 // targetType returns the type of the target of the assignment. The target type
 // can be different from the addressed type; for example in a slice assignment
 // the addressed type is the type of the slice (eg. '[]int'), while the target
@@ -411,7 +432,14 @@ func (em *emitter) assignValuesToAddresses(addresses []address, values []ast.Exp
 		types := make([]reflect.Type, len(values))
 		ks := make([]bool, len(values))
 		for i := range values {
-			types[i] = em.typ(values[i])
+			// As for an assignment with a single value, the value is
+			// emitted with the type of the target, so that a value assigned
+			// to a target with an interface type is stored in a general
+			// register.
+			types[i] = addresses[i].targetType()
+			if types[i] == nil {
+				types[i] = em.typ(values[i])
+			}
 			regs[i] = em.fb.newRegister(types[i].Kind())
 			em.emitExprR(values[i], types[i], regs[i])
 		}
@@ -427,7 +455,7 @@ func (em *emitter) assignValuesToAddresses(addresses []address, values []ast.Exp
 	case *ast.Call:
 		regs, retTypes := em.emitCallNode(valueExpr, false, false, runtime.ReturnString)
 		for i, addr := range addresses {
-			addr.assign(false, regs[i], retTypes[i])
+			em.assignConverted(addr, regs[i], retTypes[i])
 		}
 
 	case *ast.Index: // map index.
@@ -437,53 +465,53 @@ func (em *emitter) assignValuesToAddresses(addresses []address, values []ast.Exp
 		key, kKey := em.emitExprK(valueExpr.Index, keyType)
 		valueType := mapType.Elem()
 		value := em.fb.newRegister(valueType.Kind())
-		okType := addresses[1].addressedType
+		okType := em.okType(addresses[1])
 		okReg := em.fb.newRegister(reflect.Bool)
 		pos := valueExpr.Pos()
 		em.fb.emitIndex(kKey, mapp, key, value, mapType, pos, false)
 		em.fb.emitMove(true, 1, okReg, reflect.Bool)
 		em.fb.emitIf(false, 0, runtime.ConditionOK, 0, reflect.Interface, pos)
 		em.fb.emitMove(true, 0, okReg, reflect.Bool)
-		addresses[0].assign(false, value, valueType)
-		addresses[1].assign(false, okReg, okType)
+		em.assignConverted(addresses[0], value, valueType)
+		em.assignConverted(addresses[1], okReg, okType)
 
 	case *ast.Selector: // key selector.
 		exprType := em.typ(valueExpr.Expr)
 		expr := em.emitExpr(valueExpr.Expr, exprType)
 		key := em.fb.makeStringValue(valueExpr.Ident)
 		value := em.fb.newRegister(reflect.Interface)
-		okType := addresses[1].addressedType
+		okType := em.okType(addresses[1])
 		okReg := em.fb.newRegister(reflect.Bool)
 		pos := valueExpr.Pos()
 		em.fb.emitIndex(true, expr, key, value, exprType, pos, false)
 		em.fb.emitMove(true, 1, okReg, reflect.Bool)
 		em.fb.emitIf(false, 0, runtime.ConditionOK, 0, reflect.Interface, pos)
 		em.fb.emitMove(true, 0, okReg, reflect.Bool)
-		addresses[0].assign(false, value, emptyInterfaceType)
-		addresses[1].assign(false, okReg, okType)
+		em.assignConverted(addresses[0], value, emptyInterfaceType)
+		em.assignConverted(addresses[1], okReg, okType)
 
 	case *ast.TypeAssertion:
 		typ := em.typ(valueExpr.Type)
 		expr := em.emitExpr(valueExpr.Expr, emptyInterfaceType)
-		okType := addresses[1].addressedType
+		okType := em.okType(addresses[1])
 		ok := em.fb.newRegister(reflect.Bool)
 		em.fb.emitMove(true, 1, ok, reflect.Bool)
 		result := em.fb.newRegister(typ.Kind())
 		em.fb.emitAssert(expr, typ, result)
 		em.fb.emitMove(true, 0, ok, reflect.Bool)
-		addresses[0].assign(false, result, typ)
-		addresses[1].assign(false, ok, okType)
+		em.assignConverted(addresses[0], result, typ)
+		em.assignConverted(addresses[1], ok, okType)
 
 	case *ast.UnaryOperator: // receive from channel.
 		chanType := em.typ(valueExpr.Expr)
 		valueType := em.typ(valueExpr)
-		okType := addresses[1].addressedType
+		okType := em.okType(addresses[1])
 		chann := em.emitExpr(valueExpr.Expr, chanType)
 		ok := em.fb.newRegister(reflect.Bool)
 		value := em.fb.newRegister(valueType.Kind())
 		em.fb.emitReceive(chann, ok, value)
-		addresses[0].assign(false, value, valueType)
-		addresses[1].assign(false, ok, okType)
+		em.assignConverted(addresses[0], value, valueType)
+		em.assignConverted(addresses[1], ok, okType)
 
 	}
 
